@@ -234,7 +234,7 @@ impl ModelCounts {
     /// Returns [true], if there are more models than counter-models.
     /// If they are equal, the function returns [true] too.
     pub fn more_models(&self) -> bool {
-        self.models >= self.minimum()
+        self.models >= self.cmodels
     }
 }
 
